@@ -49,6 +49,7 @@ type (
 	ECall  struct {
 		Fun  string
 		Args []Expr
+		Recv Expr // method call on an expression: Recv.Fun(Args)
 	}
 	EQuant struct {
 		Forall bool
@@ -954,7 +955,7 @@ func (p *parser) parsePostfix() Expr {
 				p.next()
 				ty := p.parseTypeText()
 				p.expect(")")
-				x = &ECall{"cast", []Expr{x, &EType{ty}}}
+				x = &ECall{Fun: "cast", Args: []Expr{x, &EType{ty}}}
 				continue
 			}
 			n := p.next()
@@ -990,8 +991,13 @@ func (p *parser) parsePostfix() Expr {
 		case p.isOp("("):
 			// call: only on identifiers / pkg.Name
 			name := calleeName(x)
+			var recvExpr Expr
 			if name == "" {
-				panic(parseErr("call of non-name"))
+				sel, ok := x.(*ESel)
+				if !ok {
+					panic(parseErr("call of non-name"))
+				}
+				name, recvExpr = sel.Name, sel.X
 			}
 			p.next()
 			var args []Expr
@@ -1013,7 +1019,7 @@ func (p *parser) parsePostfix() Expr {
 				}
 			}
 			p.expect(")")
-			x = &ECall{name, args}
+			x = &ECall{Fun: name, Args: args, Recv: recvExpr}
 		default:
 			return x
 		}
